@@ -17,7 +17,7 @@ EXPLANATION = ('Theorems about the Lean model of salsa\'s fixpoint iteration sch
                'The model abstracts salsa\'s cross-revision reuse of finalised cycle memos (a write drops all memos): it is the from-scratch '
                'semantics of the iteration scheme. Tied to salsa by comparing every request of generated cyclic programs x histories (create / '
                'remove / reshape cycles, finalised acyclic feeders) with the Lean model AND with an independent Kleene-iteration oracle.')
-ASSUMPTIONS = ['conditionally formed cycles whose shape depends on VALUES (gates) are covered by the oracle run only; the Lean models branch on inputs',
+ASSUMPTIONS = ['conditionally formed cycles whose shape depends on VALUES (gates): CycleRev models them and is compared byte for byte, but the least-fixpoint theorems exclude gates, so correctness there rests on the Kleene oracle',
                'cross-revision reuse of finalised cycle results is covered by the oracle only (known finding kf2 lives exactly there; its key is '
                'recognised by mechanism: a node that was a cycle member at its last execution and was only re-validated since)',
                'the termination bound is proved for 8*n < 200 (n <= 24 functions); the per-bit argument that would give n < 200 is not formalised']
@@ -27,9 +27,9 @@ def ties(ctx):
     from seq_common import run_seq
     return [compare_cycle_rev(ctx, run_cycle(ctx, n, known_keys=KNOWN, flavours='0,4', corpus='C12'), 'cycle'),
             # monotone programs with VALUE-controlled gates (`? <expr> <expr> c0`: the guarded calls only happen once bit 0 of
-            # the guard is set), i.e. cycles that form and grow while iterating: Kleene-iteration oracle only (the Lean body
-            # language branches on inputs only)
-            run_seq(ctx, 'cycle', n, seed_offset=17, tag='cycle-gated', gen_extra=['--flavours', '6'])]
+            # the guard is set), i.e. cycles that form and grow while iterating: Kleene-iteration oracle + byte-exact comparison
+            # with the CycleRev model (whose lfp theorems, however, exclude gates: `NoAdd`)
+            compare_cycle_rev(ctx, run_seq(ctx, 'cycle', n, seed_offset=17, tag='cycle-gated', gen_extra=['--flavours', '6']), 'cycle-gated')]
 
 def search(ctx, reason):
     t = run_cycle(ctx, 200000, known_keys=KNOWN, flavours='0,4', seed_offset=97, tag='search-cycle')
